@@ -62,7 +62,7 @@ CHECKS = {
     "C08": dict(
         level="model_checking", design="DESIGN.md §3 C08",
         technique="CrossHair (z3) exhaustion of a fault schedule: stub docstring parser / ParsedDocstring whose failures (which exception, at which call) are the variables, under the real wrapper layer of epydoc2stan",
-        text="Bounded model checking against an arbitrary environment: for every parser behaviour (success, ParseError, recoverable errors, 11 exception classes) x to_stan behaviour (11 exception classes x failing always / first call / second call / summary first) x to_node (ok / NotImplementedError) x docformat x process-types x docstring x object kind (own docstring / docstring inherited from a base class; thorough: 5 kinds): format_docstring/format_summary/format_toc return, the complete original text is shown after a fatal failure, the failure is reported against the object, parse_errors records it, no message is repeated, and a second object is unaffected. The behaviour of the real parsers on arbitrary text (the 'for all strings' half of the statement) is NOT decided.",
+        text="Bounded model checking against an arbitrary environment: for every parser behaviour (success, ParseError, recoverable errors, 11 exception classes) x to_stan behaviour (11 exception classes x failing always / first call / second call / summary first) x to_node (ok / NotImplementedError) x docformat x process-types x docstring x object kind (own docstring / docstring inherited from a base class; thorough: 5 kinds): format_docstring/format_summary/format_toc return, the complete original text is shown after a fatal failure, the failure is reported against the object, parse_errors records it, no message is repeated, and a second object is unaffected. The 'for all strings' half of the statement is decided only for a generator of troublesome docstrings (h_real_parsers, class E): 1..2 (3) fragments from a menu of 26 malformed / borderline / foreign-format fragments x 5 docformats x type processing, through the real parsers: the three format_* functions return, every marker word is shown or a problem is reported, a parser that gave up shows the complete original text, reports point inside the object, the neighbour object is unaffected.",
         note="Trusted: CrossHair exhaustion verdict; the fault model is the documented contract of parser functions / ParsedDocstring (to_node raises NotImplementedError only). Stub installed by replacing epydoc2stan.get_parser_by_name.",
     ),
     "C18": dict(
